@@ -70,7 +70,7 @@ Proof. vm_compute. reflexivity. Qed.
 (** the reader as a whole.  [render]: cells joined by commas, rows by line breaks; [wf_table]: what a table must
     satisfy (spelled out below); the text may end in white space, as files do. *)
 Theorem csv_fidelity : forall tid file text header rows p,
-  strip text = render header rows -> wf_table header rows p ->
+  csv_strip text = render header rows -> wf_table header rows p ->
   exists t times,
     csv_parse tid file text = POk t /\
     map (fun row => match nth_error row p with Some cell => csv_time cell | None => None end) rows = map Some times /\
